@@ -198,6 +198,8 @@ impl Gossip {
         // "subscribe", so we wait for it to be out first.
         if let Some((_, _, guard)) = senders.get(&topic) {
             while !guard.has_unsubscribed() {
+                #[cfg(p2panda_p2panda_verif)]
+                verif_c29::schedule_point("stream:wait-unsubscribed");
                 tokio::task::yield_now().await;
             }
         }
@@ -608,7 +610,7 @@ pub mod verif_c29 {
 
     /// Installs (or removes) the process-wide schedule-point callback. Points:
     /// `stream:check-clone`, `stream:lookup-missed`, `stream:before-subscribe`,
-    /// `stream:before-insert`, `drop:before-unsubscribe`.
+    /// `stream:wait-unsubscribed`, `stream:before-insert`, `drop:before-unsubscribe`.
     pub fn set_schedule_point(callback: Option<SchedulePoint>) {
         *SCHEDULE_POINT.write().expect("schedule point lock") = callback;
     }
